@@ -148,6 +148,58 @@ pub fn run(arg: &str) -> String {
             let sat = r.is_ok() && cs.is_satisfied().unwrap();
             format!("sat={}", sat)
         }
+        "neq" => {
+            // enforce_not_equal / enforce_equal on the same element reached through two different computations (possibly two coset representatives)
+            let (a, b) = (elem(parts[2], "0"), elem(parts[3], "0"));
+            let p = ElementVar::new_witness(cs.clone(), || Ok(a)).unwrap();
+            let q = match parts[1] {
+                "addsub" => { let s = ElementVar::new_witness(cs.clone(), || Ok(a + b)).unwrap(); let t = ElementVar::new_witness(cs.clone(), || Ok(b)).unwrap(); s - t }
+                "constrep" => ElementVar::new_constant(cs.clone(), elem(parts[2], "2")).unwrap(),
+                "constrep1" => ElementVar::new_constant(cs.clone(), elem(parts[2], "1")).unwrap(),
+                "other" => ElementVar::new_witness(cs.clone(), || Ok(b)).unwrap(),
+                _ => panic!("HARNESS neq mode"),
+            };
+            let native_equal = match parts[1] { "other" => a == b, _ => true };
+            let base = cs.is_satisfied().unwrap();
+            p.enforce_not_equal(&q).unwrap();
+            let sat_neq = cs.is_satisfied().unwrap();
+            format!("base={} native_equal={} not_equal_satisfied={}", base, native_equal, sat_neq)
+        }
+        "constant" => {
+            let e = elem(parts[1], parts[2]);
+            let v = <ElementVar as CurveVar<Element, Fq>>::constant(e);
+            let w = ElementVar::new_witness(cs.clone(), || Ok(Element::GENERATOR)).unwrap();
+            let sum = v.clone() + w;
+            let val = std::panic::catch_unwind(std::panic::AssertUnwindSafe(|| v.value().map(|x| x == e).unwrap_or(false))).unwrap_or(false);
+            let sum_ok = std::panic::catch_unwind(std::panic::AssertUnwindSafe(|| sum.value().map(|x| x == e + Element::GENERATOR).unwrap_or(false))).unwrap_or(false);
+            format!("value_ok={} sum_ok={} sat={}", val, sum_ok, cs.is_satisfied().unwrap())
+        }
+        #[cfg(decaf377_verif)]
+        "allocaff" => {
+            // AffinePoint witness allocation with arbitrary (unchecked) coordinates
+            let e = decaf377::r1cs::verif_hooks::element_from_affine_unchecked(fq(parts[1]), fq(parts[2]));
+            let a = e.into_affine();
+            let r = <ElementVar as AllocVar<<Element as CurveGroup>::Affine, Fq>>::new_witness(cs.clone(), || Ok(a));
+            let sat = r.is_ok() && cs.is_satisfied().unwrap();
+            format!("sat={}", sat)
+        }
+        "eqinvalid" => {
+            // two variables allocated from the same bare field element, compared without any other use
+            let s = fq(parts[1]);
+            let p = <ElementVar as AllocVar<Fq, Fq>>::new_witness(cs.clone(), || Ok(s)).unwrap();
+            let q = <ElementVar as AllocVar<Fq, Fq>>::new_witness(cs.clone(), || Ok(s)).unwrap();
+            let r = p.enforce_equal(&q);
+            let sat = r.is_ok() && cs.is_satisfied().unwrap();
+            let b: [u8; 32] = s.to_bytes_le();
+            format!("sat={} native_valid={}", sat, Encoding(b).vartime_decompress().is_ok())
+        }
+        "select" => {
+            let (a, b) = (elem(parts[1], "0"), elem(parts[2], "0"));
+            let p = ElementVar::new_witness(cs.clone(), || Ok(a)).unwrap(); let q = ElementVar::new_witness(cs.clone(), || Ok(b)).unwrap();
+            let c = ark_r1cs_std::boolean::Boolean::new_witness(cs.clone(), || Ok(parts[3] == "1")).unwrap();
+            let r = <ElementVar as ark_r1cs_std::select::CondSelectGadget<Fq>>::conditionally_select(&c, &p, &q).unwrap();
+            format!("sat={} value_ok={}", cs.is_satisfied().unwrap(), r.value().unwrap() == if parts[3] == "1" { a } else { b })
+        }
         _ => panic!("HARNESS unknown r1cs command {}", arg),
     }
 }
